@@ -13,6 +13,17 @@ use std::time::Instant;
 
 pub const VERIF_DIR: &str = "/verif";
 
+#[cfg(not(feature = "tk"))]
+use crate::props::c03::{case_feature, death_signature};
+#[cfg(feature = "tk")]
+fn death_signature(status: &str, _tail: &str) -> String {
+    format!("process-died:{}", status)
+}
+#[cfg(feature = "tk")]
+fn case_feature(_scn: &Value) -> String {
+    String::new()
+}
+
 #[derive(Serialize, Deserialize, Default, Clone, Debug)]
 pub struct Summary {
     pub runs: u64,
@@ -67,9 +78,49 @@ impl Summary {
 
 #[derive(Clone, Debug)]
 pub struct Found {
+    /// id the worker/executor knows this run under ("C01" or its tokio twin "C01T")
+    pub wid: String,
     pub idx: u64,
     pub result: RunResult,
     pub scenario: Value,
+}
+
+pub const TK_EXE: &str = "/verif/tk/target/release/hvtk";
+
+/// Properties that also run on the tokio twin (a separate build of the harness).
+pub fn twin_of(id: &str) -> Option<String> {
+    if cfg!(feature = "tk") {
+        return None;
+    }
+    match id {
+        "C01" | "C02" | "C20" => Some(format!("{}T", id)),
+        _ => None,
+    }
+}
+
+fn exe_for(id: &str) -> String {
+    if id.ends_with('T') && !cfg!(feature = "tk") {
+        TK_EXE.to_string()
+    } else {
+        self_exe()
+    }
+}
+
+/// `runs(tier)` of a twin check, asked from the twin binary.
+fn twin_runs(wid: &str, tier: Tier) -> Option<u64> {
+    let out = Command::new(TK_EXE).arg("list").output().ok()?;
+    let text = String::from_utf8_lossy(&out.stdout).to_string();
+    for l in text.lines() {
+        let mut it = l.split_whitespace();
+        if it.next() == Some(wid) {
+            for kv in it {
+                if let Some(v) = kv.strip_prefix(if tier == Tier::Quick { "quick=" } else { "thorough=" }) {
+                    return v.parse().ok();
+                }
+            }
+        }
+    }
+    None
 }
 
 fn self_exe() -> String {
@@ -91,7 +142,7 @@ impl Executor {
     }
     fn ensure(&mut self) {
         if self.child.is_none() {
-            let mut c = Command::new(self_exe())
+            let mut c = Command::new(exe_for(&self.id))
                 .args(["serve", &self.id, "--cpu", "0"])
                 .stdin(Stdio::piped())
                 .stdout(Stdio::piped())
@@ -129,8 +180,8 @@ impl Executor {
                     if self.isolated {
                         let (status, tail) = self.reap();
                         if !status.contains("17") {
-                            let kind = crate::props::c03::death_signature(&status, &tail);
-                            let sig = format!("{}:{}:{}", kind, scn["target"].as_str().unwrap_or("?"), crate::props::c03::case_feature(scn));
+                            let kind = death_signature(&status, &tail);
+                            let sig = format!("{}:{}:{}", kind, scn["target"].as_str().unwrap_or("?"), case_feature(scn));
                             let mut r = RunResult::default();
                             r.violate(&format!("{}/R1", self.id), sig, format!("executor process died ({}) on this scenario; stderr tail: {}", status, tail.replace('\n', " | ")));
                             return r;
@@ -230,10 +281,22 @@ pub fn check(id: &str, tier: Tier, seed: u64, jobs: usize, max_runs: Option<u64>
     let samples: Arc<Mutex<Vec<Value>>> = Arc::new(Mutex::new(Vec::new()));
     let errors: Arc<Mutex<Vec<String>>> = Arc::new(Mutex::new(Vec::new()));
     let recycles = Arc::new(Mutex::new(0u64));
+    // phases: the check itself, then (for some properties) its tokio twin from the twin binary
+    let mut phases: Vec<(String, u64)> = vec![(id.to_string(), total)];
+    let mut engine_runs: BTreeMap<String, u64> = BTreeMap::new();
+    if let Some(t) = twin_of(id) {
+        match twin_runs(&t, tier) {
+            Some(n) => phases.push((t, max_runs.map(|m| m.min(n)).unwrap_or(n))),
+            None => errors.lock().unwrap().push(format!("the tokio twin binary {} is missing or does not list {}", TK_EXE, t)),
+        }
+    }
+    for (wid, total) in phases {
+    let runs_before = summary.lock().unwrap().runs;
+    let jobs = jobs.min(total.max(1) as usize).max(1);
     let mut handles = Vec::new();
     for w in 0..jobs {
         let (summary, found, samples, errors, recycles) = (summary.clone(), found.clone(), samples.clone(), errors.clone(), recycles.clone());
-        let id = id.to_string();
+        let id = wid.clone();
         let isolated = prop.isolated();
         handles.push(std::thread::spawn(move || {
             let mut start = w as u64;
@@ -243,7 +306,7 @@ pub fn check(id: &str, tier: Tier, seed: u64, jobs: usize, max_runs: Option<u64>
                     break;
                 }
                 let remaining = (deadline_s - t_start.elapsed().as_secs_f64()).max(1.0);
-                let mut child = match Command::new(self_exe())
+                let mut child = match Command::new(exe_for(&id))
                     .args([
                         "worker", &id, "--tier", tier.name(), "--seed", &seed.to_string(), "--start", &start.to_string(),
                         "--end", &total.to_string(), "--stride", &jobs.to_string(), "--cpu", &(w % 16).to_string(),
@@ -284,6 +347,7 @@ pub fn check(id: &str, tier: Tier, seed: u64, jobs: usize, max_runs: Option<u64>
                     if let Some(rest) = line.strip_prefix("V ") {
                         if let Ok(v) = serde_json::from_str::<Value>(rest) {
                             let f = Found {
+                                wid: id.clone(),
                                 idx: v["idx"].as_u64().unwrap_or(0),
                                 result: serde_json::from_value(v["result"].clone()).unwrap_or_default(),
                                 scenario: v["scenario"].clone(),
@@ -325,15 +389,15 @@ pub fn check(id: &str, tier: Tier, seed: u64, jobs: usize, max_runs: Option<u64>
                         // the worker died inside an announced case: that is a finding about the case
                         let idx = announced_idx.unwrap();
                         let tail: String = err_text.chars().rev().take(600).collect::<String>().chars().rev().collect();
-                        let kind = crate::props::c03::death_signature(&format!("{:?}", status), &tail);
+                        let kind = death_signature(&format!("{:?}", status), &tail);
                         let mut scn = find_prop(&id).map(|p| p.generate(seed, idx, tier)).unwrap_or(Value::Null);
                         if let Some(c) = announced_case {
                             scn["only_case"] = json!(c);
                         }
-                        let sig = format!("{}:{}:{}", kind, scn["target"].as_str().unwrap_or("?"), crate::props::c03::case_feature(&scn));
+                        let sig = format!("{}:{}:{}", kind, scn["target"].as_str().unwrap_or("?"), case_feature(&scn));
                         let mut r = RunResult::default();
                         r.violate(&format!("{}/R1", id), sig, format!("worker process died ({:?}) while running run {} case {:?}; stderr tail: {}", status, idx, announced_case, tail.replace('\n', " | ")));
-                        found.lock().unwrap().push(Found { idx, result: r, scenario: scn });
+                        found.lock().unwrap().push(Found { wid: id.clone(), idx, result: r, scenario: scn });
                         *recycles.lock().unwrap() += 1;
                         start = idx + jobs as u64;
                         continue;
@@ -349,6 +413,9 @@ pub fn check(id: &str, tier: Tier, seed: u64, jobs: usize, max_runs: Option<u64>
     }
     for h in handles {
         let _ = h.join();
+    }
+    let done = summary.lock().unwrap().runs - runs_before;
+    engine_runs.insert(if wid.ends_with('T') { "tokio-twin".to_string() } else { "threads".to_string() }, done);
     }
     let mut summary = summary.lock().unwrap().clone();
     let errors = errors.lock().unwrap().clone();
@@ -374,7 +441,7 @@ pub fn check(id: &str, tier: Tier, seed: u64, jobs: usize, max_runs: Option<u64>
         }
     }
     let findings = load_findings();
-    let mut exec = Executor::new(id);
+    let mut execs: BTreeMap<String, Executor> = BTreeMap::new();
     let mut violation_lines: Vec<String> = Vec::new();
     let mut known_lines: Vec<String> = Vec::new();
     let mut reported = Vec::new();
@@ -389,7 +456,8 @@ pub fn check(id: &str, tier: Tier, seed: u64, jobs: usize, max_runs: Option<u64>
             continue;
         }
         // minimise, holding the violation class fixed
-        let (min_scn, min_res, steps) = shrink::minimise(&mut exec, &first.scenario, rule, sig, budget_per_group, 90.0);
+        let exec = execs.entry(first.wid.clone()).or_insert_with(|| Executor::new(&first.wid));
+        let (min_scn, min_res, steps) = shrink::minimise(exec, &first.scenario, rule, sig, budget_per_group, 90.0);
         // replay in a fresh process: must reproduce rule+sig and the same trace hash
         exec.fresh();
         let again = exec.exec(&min_scn);
@@ -407,7 +475,7 @@ pub fn check(id: &str, tier: Tier, seed: u64, jobs: usize, max_runs: Option<u64>
         let h = hash_json(&json!([rule, sig]));
         let path = format!("{}/replays/{}-{:016x}.json", VERIF_DIR, id, h);
         let replay = json!({
-            "property": id, "rule": rule, "sig": sig, "detail": detail,
+            "property": id, "engine_id": first.wid, "rule": rule, "sig": sig, "detail": detail,
             "seed": seed, "tier": tier.name(), "first_idx": first.idx, "runs_failing": fs.len(),
             "minimise_steps": steps, "trace_hash": min_res.trace_hash,
             "scenario": min_scn,
@@ -419,7 +487,7 @@ pub fn check(id: &str, tier: Tier, seed: u64, jobs: usize, max_runs: Option<u64>
         println!("  {} {}: {}", rule, sig, detail.chars().take(600).collect::<String>());
         reported.push(json!({"rule": rule, "sig": sig, "runs": fs.len(), "first_idx": first.idx, "replay": path}));
     }
-    drop(exec);
+    drop(execs);
 
     // ---- evidence --------------------------------------------------------------
     let wall = t0.elapsed().as_secs_f64();
@@ -450,6 +518,7 @@ pub fn check(id: &str, tier: Tier, seed: u64, jobs: usize, max_runs: Option<u64>
             "samples": sample_list,
             "exhaustive": exhaustive,
             "simulated_runs": summary.runs,
+            "runs_per_engine": engine_runs,
             "runs_per_hour": if sim_wall > 0.0 { (summary.runs as f64 / sim_wall * 3600.0) as u64 } else { 0 },
             "seeds_per_hour": if sim_wall > 0.0 { (summary.runs as f64 / sim_wall * 3600.0) as u64 } else { 0 },
             "simulated_seconds": summary.virtual_ns as f64 / 1e9,
@@ -514,6 +583,18 @@ pub fn replay(path: &str) -> i32 {
         }
     };
     let id = v["property"].as_str().unwrap_or("");
+    let wid = v["engine_id"].as_str().unwrap_or(id).to_string();
+    if wid.ends_with('T') && !cfg!(feature = "tk") {
+        // a tokio-twin scenario: the twin binary replays it
+        return match Command::new(TK_EXE).args(["replay", path]).status() {
+            Ok(s) => s.code().unwrap_or(2),
+            Err(e) => {
+                eprintln!("hv: cannot run {}: {}", TK_EXE, e);
+                2
+            }
+        };
+    }
+    let id = if cfg!(feature = "tk") { wid.as_str() } else { id };
     let prop = match find_prop(id) {
         Some(p) => p,
         None => {
